@@ -42,9 +42,12 @@ def accepts_of(it, obj):
     return [str(x) for x in acc]
 
 
-def explore_method(facts, reg, method, args_builder, max_paths=30000):
-    """Explore ``instance.<method>(*args)`` for a fresh instance of the registered class."""
+def explore_method(facts, reg, method, args_builder, max_paths=30000, split=False):
+    """Explore ``instance.<method>(*args)`` for a fresh instance of the registered class.
+    split=False: no eager case split of ``x % m`` (fewer paths; enough for exception / width questions)."""
     it = facts.interp(max_paths=max_paths)
+    if not split:
+        it.no_split = 1
 
     def thunk():
         obj = it.instantiate(reg.cls, [], {}, None)
@@ -56,3 +59,63 @@ def explore_method(facts, reg, method, args_builder, max_paths=30000):
         raise AnalysisError(f"cannot evaluate {reg.cls.short}.{method}: {e}")
     except PathLimit as e:
         raise AnalysisError(f"{reg.cls.short}.{method}: {e}")
+
+
+class Evaluator:
+    """Concrete evaluation of methods of registered classes through the abstract evaluator."""
+
+    def __init__(self, facts):
+        self.facts = facts
+        self.it = facts.interp()
+
+    def call(self, cls, method, args):
+        it = self.it
+
+        def thunk():
+            obj = it.instantiate(cls, [], {}, None)
+            return it.call(it.getattr(obj, method), list(args), {})
+
+        try:
+            outs = it.explore(thunk, max_paths=64)
+        except (CannotEvaluate, PathLimit) as e:
+            raise AnalysisError(f"cannot evaluate {cls.short}.{method}{tuple(args)!r}: {e}")
+        outs = [o for o in outs if o.kind != "infeasible"]
+        if len(outs) != 1:
+            raise AnalysisError(f"{cls.short}.{method} is not deterministic on concrete input {args!r}")
+        o = outs[0]
+        return ("ret", o.value) if o.kind == "return" else ("exc", o.value)
+
+
+def country_fields(registry, cc):
+    """{component: (start, end, class letters)} for the published positions of cc."""
+    st = struct_positions(registry, cc)
+    out = {}
+    if st is None:
+        return out
+    for comp, rng in registry.positions(cc).items():
+        if isinstance(rng, list) and len(rng) == 2 and 0 <= rng[0] < rng[1] <= len(st):
+            out[comp] = (rng[0], rng[1], st[rng[0]:rng[1]])
+    return out
+
+
+CLASS_ALPHABET = {"n": "0123456789", "a": "ABCDEFGHIJKLMNOPQRSTUVWXYZ", "c": "0123456789ABCDEFGHIJKLMNOPQRSTUVWXYZ", "e": " "}
+
+
+def probes(fields, accepts, seed=0, n_random=24):
+    """Deterministic probe family over the accepted fields: base, every single-position variation,
+    and pseudo-random fills.  Yields dicts component -> string (all published fields filled)."""
+    import random
+    base = {c: "".join(CLASS_ALPHABET[k][0] for k in cls) for c, (a, b, cls) in fields.items()}
+    yield dict(base)
+    for c in accepts:
+        if c not in fields:
+            continue
+        a, b, cls = fields[c]
+        for i, k in enumerate(cls):
+            for ch in CLASS_ALPHABET[k][1:]:
+                p = dict(base)
+                p[c] = base[c][:i] + ch + base[c][i + 1:]
+                yield p
+    rnd = random.Random(1000003 * (seed + 1))
+    for _ in range(n_random):
+        yield {c: "".join(rnd.choice(CLASS_ALPHABET[k]) for k in cls) for c, (a, b, cls) in fields.items()}
